@@ -68,9 +68,12 @@ class LongPoll(object):
         if response.response_type == ResponseType.NO_CHANGE:
             logging.debug("No Change in config.")
             self.config.tracepoints.update_no_change(response.ts_nanos)
-        else:
+        elif response.response_type == ResponseType.UPDATE:
             self.config.tracepoints.update_new_config(response.ts_nanos, response.current_hash,
                                                       convert_response(response.response))
+        else:
+            # an answer we do not understand (e.g. from a newer service) leaves the last good config in force
+            logging.warning("Ignoring poll response of unknown type %s", response.response_type)
 
     def shutdown(self):
         """Shutdown the timer."""
